@@ -46,6 +46,7 @@ typedef struct {
 
 static cfg_t CFG;
 static party PT[2];
+static unsigned TAPE_FLIP[2];   /* run_bake_tape: invert the lowest bit of that draw of that party */
 static channel CHS[2];
 static sk_result* OUT;
 static const sk_mask* MASK;
@@ -395,7 +396,7 @@ static void gen_cfg(sk_rng* r, int alloc_mode)
 		c->kca = c->kcb = 1;
 	if (c->proto == P_BAUTH)
 		c->kca = 1;
-	sk_rng_seed(&setup.r, sk_u64(r)), setup.mode = 0, setup.calls = 0;
+	sk_rng_seed(&setup.r, sk_u64(r)), setup.mode = 0, setup.calls = 0, setup.flip_call = 0;
 	for (s = 0; s < 2; ++s)
 	{
 		c->mode[s] = (int)sk_below(r, 2);
@@ -448,7 +449,7 @@ static void setup_party(int s, uint64_t tape_seed, int apply_mismatch)
 	p->st.helloa = c->hello_null[0] ? 0 : c->hello[0], p->st.helloa_len = c->hello_null[0] ? 0 : c->hello_len[0];
 	p->st.hellob = c->hello_null[1] ? 0 : c->hello[1], p->st.hellob_len = c->hello_null[1] ? 0 : c->hello_len[1];
 	p->st.rng = tape_gen, p->st.rng_state = &p->tape;
-	sk_rng_seed(&p->tape.r, tape_seed), p->tape.mode = c->tape_mode[s], p->tape.calls = 0;
+	sk_rng_seed(&p->tape.r, tape_seed), p->tape.mode = c->tape_mode[s], p->tape.calls = 0, p->tape.flip_call = TAPE_FLIP[s];
 	p->cert.data = c->certdata[s], p->cert.len = c->certlen[s], p->cert.val = certval;
 	p->peer.data = c->certdata[s ^ 1], p->peer.len = c->certlen[s ^ 1], p->peer.val = certval;
 	p->priv = c->priv[s];
@@ -916,7 +917,7 @@ void run_bake_sweep(uint64_t seed, const sk_mask* mask, sk_result* out)
 	{
 		int s2;
 		tape_t setup;
-		sk_rng_seed(&setup.r, sk_u64(&r)), setup.mode = 0, setup.calls = 0;
+		sk_rng_seed(&setup.r, sk_u64(&r)), setup.mode = 0, setup.calls = 0, setup.flip_call = 0;
 		for (s2 = 0; s2 < 2; ++s2)
 		{
 			c->tape_mode[s2] = 0;
@@ -1154,7 +1155,7 @@ void run_bake_diff(uint64_t seed, const sk_mask* mask, sk_result* out)
 			/* same shape, other secrets */
 			tape_t setup;
 			sk_rng pr;
-			sk_rng_seed(&setup.r, resec), setup.mode = 0, setup.calls = 0;
+			sk_rng_seed(&setup.r, resec), setup.mode = 0, setup.calls = 0, setup.flip_call = 0;
 			for (s = 0; s < 2; ++s)
 			{
 				b2_keypair(c->priv[s], c->pub[s], c->l / 4, tape_gen, &setup);
@@ -1334,5 +1335,95 @@ void run_bake_adv(uint64_t seed, const sk_mask* mask, sk_result* out)
 	if (adv_sent && !PT[vic].accepted && PT[vic].rc == ERR_BAD_POINT)
 		sk_count("probe.off_curve_point_refused", 1);
 	out->sig = sk_mix(((uint64_t)c->l << 8) | ((uint64_t)c->kca << 3) | ((uint64_t)c->kcb << 2) | ((uint64_t)adv << 1) | (uint64_t)c->mode[vic], 80);
+	out->nontrivial = 1;
+}
+
+
+/* ------------------------------------------------------------------------
+   C04, "for every ... generator output": every value a party draws from its
+   generator must matter.  A fault-free session is run once to count each party's
+   draws, then once more per draw with the lowest bit of exactly that draw
+   inverted (same keys, same schedule, same everything else).  Nonces, blinding
+   values and ephemeral scalars all travel - wrapped or as points - or enter the
+   key, so the transcript or a key must change; a draw that changes nothing was
+   overwritten or ignored (e.g. a nonce slot overlapping another field). */
+void run_bake_tape(uint64_t seed, const sk_mask* mask, sk_result* out)
+{
+	static octet ref[2][3][CH_MAXMSG];
+	static size_t reflen[2][3];
+	octet refkey[2][32];
+	unsigned ndraw[2] = { 0, 0 };
+	sk_rng r;
+	cfg_t* c = &CFG;
+	uint64_t fill, ts[2], ss;
+	int strat, who, d, o;
+	unsigned k, el = 0;
+	OUT = out, MASK = mask;
+	c15_only = 0;
+	sk_rng_seed(&r, seed);
+	gen_cfg(&r, 1);
+	if (c->proto == P_BAUTH)
+		c->mode[0] = c->mode[1] = 1;
+	c->tape_mode[0] = c->tape_mode[1] = 0;
+	fill = sk_u64(&r), ts[0] = sk_u64(&r), ts[1] = sk_u64(&r), ss = sk_u64(&r);
+	strat = (int)sk_below(&r, 4);
+	describe("fault-free session, then one inverted bit per generator draw");
+	sk_heap_filter = heap_filter;
+	out->nops = 0;
+	for (who = -1; who < 2; ++who)
+		for (k = 1; k <= (who < 0 ? 1 : ndraw[who]); ++k)
+		{
+			int same = 1;
+			if (who >= 0 && !sk_keep(mask, el++))
+				continue;
+			TAPE_FLIP[0] = TAPE_FLIP[1] = 0;
+			if (who >= 0)
+				TAPE_FLIP[who] = k;
+			sk_heap_reset(fill);
+			PT[0].fail_at = PT[1].fail_at = 0;
+			setup_party(0, ts[0], 0), setup_party(1, ts[1], 0);
+			TAPE_FLIP[0] = TAPE_FLIP[1] = 0;
+			ch_init(&CHS[0], 0);
+			CHS[0].fragment_honest = 0xFF;
+			if (run_session(&CHS[0], ss, strat) != 0)
+			{
+				sk_violate(out, "deadlock", "fault-free session did not terminate");
+				sk_restart_requested = 1;
+				return;
+			}
+			if (is_known_framing())
+				return;
+			if (who < 0)
+			{
+				if (!PT[0].accepted || !PT[1].accepted)
+					return; /* judged by the bake leg */
+				ndraw[0] = PT[0].tape.calls, ndraw[1] = PT[1].tape.calls;
+				if (ndraw[0] > 12) ndraw[0] = 12;
+				if (ndraw[1] > 12) ndraw[1] = 12;
+				out->nops = ndraw[0] + ndraw[1];
+				for (d = 0; d < 2; ++d)
+					for (o = 0; o < 3; ++o)
+						reflen[d][o] = CHS[0].loglen[d][o], memcpy(ref[d][o], CHS[0].log[d][o], reflen[d][o]);
+				memcpy(refkey[0], PT[0].key, 32), memcpy(refkey[1], PT[1].key, 32);
+				sk_text(OUT, "  reference session: A drew %u times, B drew %u times", ndraw[0], ndraw[1]);
+				continue;
+			}
+			for (d = 0; d < 2; ++d)
+				for (o = 0; o < 3; ++o)
+					if (CHS[0].loglen[d][o] != reflen[d][o] || memcmp(CHS[0].log[d][o], ref[d][o], reflen[d][o]))
+						same = 0;
+			if (memcmp(PT[0].key, refkey[0], 32) || memcmp(PT[1].key, refkey[1], 32) || PT[0].rc != ERR_OK || PT[1].rc != ERR_OK)
+				same = 0;
+			sk_dg_u64(&out->digest, (uint64_t)same);
+			sk_count("fault.generator_draw_bit_inverted", 1);
+			if (same)
+			{
+				sk_violate(out, "generator_output_ignored", "%s l=%u kca=%d kcb=%d: inverting the lowest bit of draw #%u of party %c changes neither a message nor a key",
+					PN[c->proto], (unsigned)c->l, c->kca, c->kcb, k, who ? 'B' : 'A');
+				return;
+			}
+		}
+	sk_count("calls", 1);
+	out->sig = sk_mix(((uint64_t)c->proto << 24) | ((uint64_t)c->l << 8) | ((uint64_t)c->kca << 3) | ((uint64_t)c->kcb << 2) | ((uint64_t)ndraw[0] << 32) | ((uint64_t)ndraw[1] << 40), 81);
 	out->nontrivial = 1;
 }
